@@ -152,7 +152,7 @@ def main():
         ],
         "checks": checks,
         "not_applicable": na,
-        "notes": "Exit codes of every check: 0 held on everything explored, 1 confirmed violation (VIOLATION line), 2 inconclusive (never counted as success), 3 harness/engine error. known_findings.json lists recorded findings and fixed defects.",
+        "notes": "Exit codes of every check: 0 held on everything explored, 1 confirmed violation (VIOLATION line; every violation is first replayed on the un-instrumented code in a fresh interpreter), 2 inconclusive (solver unknown, or - quick tier only - time budget exhausted; never counted as success), 3 harness/engine error. The thorough tier is an anytime exploration: the quick tier's jobs run first, and jobs not explored completely within the time budget are listed in evidence (coverage.incomplete_jobs, exhaustive=false) and not claimed. Engine options: 'sx' also keeps an integer-sort encoding of each path condition for linear arithmetic (DESIGN 10.2); C17 additionally runs CrossHair on its lemmas; './check selftest' checks the proxies against CPython and the solver verdicts against z3 4.8 / cvc5. known_findings.json lists recorded findings and fixed defects.",
     }
     with open(os.path.join(HERE, "MANIFEST.json"), "w") as f:
         json.dump(man, f, indent=1)
